@@ -68,6 +68,7 @@ type gprover struct {
 	invOK bool
 	pure  int
 	canon map[string]ssa.Value
+	depth int
 }
 
 func newProver(c *Ctx, fn *ssa.Function) *gprover {
@@ -580,11 +581,106 @@ func predicateFacts(c *Ctx, callee *ssa.Function, args []ssa.Value, caller *gpro
 }
 
 // invariants (P9): inductive lower bounds len(phi) >= L for the slice-typed phis of fn.
+// callSiteFacts: for an unexported function with exactly one call site in the module (and never used as a
+// value), what the caller knows at that site about the arguments holds for the parameters.
+func (p *gprover) callSiteFacts() []gfact {
+	fn := p.fn
+	if p.depth >= 2 || fn.Parent() != nil || fn.Pkg == nil {
+		return nil
+	}
+	if n := fn.Name(); n == "" || (n[0] >= 'A' && n[0] <= 'Z') || fn.Signature.Recv() != nil && false {
+		return nil
+	}
+	var site *ssa.Call
+	nSites, asValue := 0, false
+	for _, g := range p.c.moduleFuncs() {
+		instrs(g, func(in ssa.Instruction) {
+			var ops []*ssa.Value
+			for _, op := range in.Operands(ops) {
+				if *op == ssa.Value(fn) {
+					if cl, ok := in.(*ssa.Call); ok && cl.Call.Value == ssa.Value(fn) {
+						site = cl
+						nSites++
+					} else {
+						asValue = true
+					}
+				}
+			}
+		})
+	}
+	if nSites != 1 || asValue || site == nil {
+		return nil
+	}
+	caller := site.Parent()
+	if caller == fn {
+		return nil
+	}
+	pc := newProver(p.c, caller)
+	pc.depth = p.depth + 1
+	pc.invariants()
+	argOf := map[ssa.Value]ssa.Value{}
+	for i, a := range site.Call.Args {
+		if i < len(fn.Params) {
+			argOf[a] = fn.Params[i]
+			argOf[pc.canonV(a)] = fn.Params[i]
+		}
+	}
+	// a sliced argument x[k:]: len(x) = len(param) + k
+	type lenRel struct {
+		par ssa.Value
+		k   int64
+	}
+	lenVia := map[gsym]lenRel{}
+	for i, a := range site.Call.Args {
+		if i >= len(fn.Params) {
+			break
+		}
+		if _, isSl := a.(*ssa.Slice); !isSl {
+			continue
+		}
+		L := pc.lenOf(a)
+		if len(L.t) == 1 {
+			for sym, coef := range L.t {
+				if coef == 1 && sym.isLen {
+					lenVia[sym] = lenRel{fn.Params[i], L.c} // len(param) = len(x) + L.c
+				}
+			}
+		}
+	}
+	var out []gfact
+	for _, f := range pc.facts(site.Block()) {
+		ok := true
+		t := glin{c: f.e.c, t: map[gsym]int64{}}
+		for sym, k := range f.e.t {
+			par, found := argOf[sym.v]
+			if !found {
+				par, found = argOf[pc.canonV(sym.v)]
+			}
+			if !found {
+				if rel, viaLen := lenVia[sym]; viaLen {
+					// len(x) = len(param) - L.c
+					t.t[gsym{v: rel.par, isLen: true}] += k
+					t.c -= k * rel.k
+					continue
+				}
+				ok = false
+				break
+			}
+			t.t[gsym{v: par, isLen: sym.isLen}] += k
+		}
+		if ok && len(t.t) > 0 {
+			out = append(out, gfact{e: t, eq: f.eq, neq: f.neq})
+		}
+	}
+	return out
+}
+
 func (p *gprover) invariants() {
 	if p.invOK {
 		return
 	}
 	p.invOK = true
+	p.inv = append(p.inv, p.callSiteFacts()...)
 	var phis []*ssa.Phi
 	instrs(p.fn, func(in ssa.Instruction) {
 		if phi, ok := in.(*ssa.Phi); ok {
